@@ -109,20 +109,15 @@ Definition msg_remove_signal (s : state) (m x : nat) : state :=
   let s2 := set_gnames s1 (upd (gnames s1) m (lrem_all dn (lrem x (gnames s1 m)))) in
   set_pmsg_all s2 (x :: ds) None.
 
-(* MultiplexerSignal.addSignal: one level of the children of x is registered in the owning
-   message (ids and names), and only x gets its parent message set *)
+(* MultiplexerSignal.addSignal: when the multiplexer has a parent message the signal (and, for a
+   multiplexer, everything below it) is registered there through Message.addSignal *)
 Definition mux_add_signal (s : state) (u x : nat) : state :=
   let s1 := set_usigs s (upd (usigs s) u (ladd x (usigs s u))) in
   let s2 := set_unames s1 (upd (unames s1) u (ladd x (unames s1 u))) in
   let s3 := set_pmux s2 (upd (pmux s2) x (Some u)) in
   match pmsg s3 u with
   | None => s3
-  | Some m =>
-    let cs := if is_mux s3 x then usigs s3 x else [] in
-    let cn := if is_mux s3 x then unames s3 x else [] in
-    let s4 := set_gsigs s3 (upd (gsigs s3) m (ladd x (ladd_all cs (gsigs s3 m)))) in
-    let s5 := set_gnames s4 (upd (gnames s4) m (ladd x (ladd_all cn (gnames s4 m)))) in
-    set_pmsg s5 (upd (pmsg s5) x (Some m))
+  | Some m => msg_add_signal s3 m x
   end.
 
 (* MultiplexerSignal.removeSignal *)
@@ -132,12 +127,7 @@ Definition mux_remove_signal (s : state) (u x : nat) : state :=
   let s3 := set_pmux s2 (upd (pmux s2) x None) in
   match pmsg s3 u with
   | None => s3
-  | Some m =>
-    let cs := if is_mux s3 x then usigs s3 x else [] in
-    let cn := if is_mux s3 x then unames s3 x else [] in
-    let s4 := set_gsigs s3 (upd (gsigs s3) m (lrem x (lrem_all cs (gsigs s3 m)))) in
-    let s5 := set_gnames s4 (upd (gnames s4) m (lrem x (lrem_all cn (gnames s4 m)))) in
-    set_pmsg s5 (upd (pmsg s5) x None)
+  | Some m => msg_remove_signal s3 m x
   end.
 
 (* ---------------------------------------------------------------------------------------- *)
@@ -330,11 +320,6 @@ Definition step_insert (s : state) (m x : nat) (b : Z) : state * result :=
          let s1 := set_glay (set_rel s pos) (upd (glay s) m l) in
          (msg_add_signal s1 m x, ROk)
        end.
-
-Definition step_remove (s : state) (m x : nat) : state * result :=
-  if negb (memb x (gsigs s m)) then (s, RErr NotFound)
-  else let s1 := msg_remove_signal s m x in
-       (set_glay s1 (upd (glay s1) m (do_remove (glay s1 m) x)), ROk).
 
 Definition step_remove_all (s : state) (m : nat) : state * result :=
   let s1 := set_pmsg_all s (gsigs s m) None in
@@ -564,6 +549,16 @@ Definition step_mux_remove (s : state) (u x : nat) : state * result :=
               let s2 := mux_remove_signal s1 u x in
               (set_ugids s2 (upd2 (ugids s2) u x None), ROk)
             end.
+
+(* Message.RemoveSignal: a multiplexed signal is removed through its multiplexer *)
+Definition step_remove (s : state) (m x : nat) : state * result :=
+  if negb (memb x (gsigs s m)) then (s, RErr NotFound)
+  else match pmux s x with
+       | Some u => step_mux_remove s u x
+       | None =>
+         let s1 := msg_remove_signal s m x in
+         (set_glay s1 (upd (glay s1) m (do_remove (glay s1 m) x)), ROk)
+       end.
 
 (* the loop of ClearSignalGroup over a snapshot of the group *)
 Fixpoint clear_group_loop (s : state) (u : nat) (g : Z) (xs : list nat) : state * bool (* panicked *) :=
